@@ -3,8 +3,11 @@
 PROP = dict(
     level="exploration",
     all_exhaustive=True,
-    stages=[dict(name="c19_expect", src="harness/c19_expect.cc", shards_quick=4, shards_thorough=8,
-                 timeout_quick=300, timeout_thorough=900)],
+    stages=[dict(name="c19_expect", src="harness/c19_expect.cc", extra_srcs=["harness/c19/other_tu.cc"], deps=["harness/c19/tu_local.hh"], shards_quick=4, shards_thorough=8,
+                 timeout_quick=300, timeout_thorough=900),
+            # expect_raises over two translation units with same-named file-local exception types, probe built with g++ and clang++
+            dict(name="c19_two_tu", kind="pydriver", driver="oracle/c19_two_tu.py",
+                 shards_quick=4, shards_thorough=4, timeout_quick=300, timeout_thorough=600)],
     rule=("finite matrices enumerated completely: (a) 8 helpers (expect_eq/ne/gt/ge/lt/le, expect, expect_msg) x all operand "
           "pairs over {INT64_MIN,-1,0,1,INT64_MAX}, {\"\",\"a\",\"b\",\"aa\"} and {-inf,-0.0,0.0,1.5,inf,NaN}; (b) expect_raises<E>(fn) for E over "
           "15 exception types (the ten of the std / phosg tree plus a type with two std::exception subobjects [runtime_error + out_of_range], a "
@@ -14,13 +17,26 @@ PROP = dict(
           "24 x 8 boundary bit patterns - the relation of these two macros is 'the predicate converts to true'; (d) retain: sequences of failing calls; "
           "every cell of (a)-(c) and every step of (d) under 5 ambient states of the C++ runtime: plain call, call from a destructor that runs during "
           "stack unwinding (inside a try/catch in the destructor, so nothing leaves it), call inside a catch handler, destructor unwinding inside a "
-          "handler, freshly started thread; plus rapidcheck-generated cases (boundary-biased int64, arbitrary double bit patterns, short byte strings, "
+          "handler, freshly started thread; (e) once: every helper with operand EXPRESSIONS that have a side effect - a source that counts its "
+          "evaluations and yields one value the first time, another one afterwards (n++, queue.pop(), toggle()) - 8 helpers x {int64, string} x "
+          "(first, later) values over {0,1,2}^2 per side x 5 ambient states, and expect_raises on a function with state (4 x 4 behaviours at the "
+          "first / later calls x 2 entry points): the verdict is the relation on the values of the FIRST evaluation, each operand expression is "
+          "evaluated exactly once whether the expectation holds or fails (clause operand-evaluations), the message expression of expect_msg at most "
+          "once, fn exactly once; (f) raises_tu: expect_raises over TWO translation units (harness/c19/other_tu.cc is linked in; both include "
+          "harness/c19/tu_local.hh and so each own same-named file-local ParseError / ParseDetail / NotFound / LocalError / function-local class): "
+          "2 files owning E x 9 expected types (5 file-local, 4 standard bases) x 2 files owning fn x {throws each of the 5, returns} x 2 entry "
+          "points x 5 ambient states; pass iff the thrown type is E or derives from it and, for a file-local E, belongs to the same file; stage "
+          "c19_two_tu (oracle/c19_two_tu.py) builds the same matrix as a stand-alone probe with g++ and clang++ at -O0 / -O2 (expect_raises_fn is a "
+          "template: the consumer's compiler compiles it) and decides it against the hierarchy written down in Python; "
+          "plus rapidcheck-generated cases (boundary-biased int64, arbitrary double bit patterns, short byte strings, "
           "equal / adjacent pairs forced in 1/3-1/2 of the cases; raw predicates: zero, boundary, arbitrary, integers whose low 8/16/32/48/63 bits are "
           "zero, 128-bit values decided by the high word only, float/double dyadic fractions down to the subnormal range, NaN/inf, long double from "
-          "significand x 2^exponent; ambient state plain in 1/2 of the cases). Non-trivial: every relation / truth cell (each decides one relation on "
+          "significand x 2^exponent; ambient state plain in 1/2 of the cases; once: boundary-biased first values, the later value the same / a neighbour / the other side's "
+          "value / zero-nonzero flipped / arbitrary). Non-trivial: every relation / truth cell (each decides one relation on "
           "one operand pair / one conversion on one value); expect_raises cells where fn returns normally, or E is a base of expectation_failed "
           "(std::exception, std::logic_error, expectation_failed), or E / the thrown type is one of the five non-tree types, or the ambient state is "
-          "not plain. Distinct = distinct case encodings (hash)."),
+          "not plain; every once cell; raises_tu / two_tu cells where E is file-local or the thrown object comes from the other file. "
+          "Distinct = distinct case encodings (hash)."),
     assumptions=["expectation_failed::msg is only read when the message is a string literal (macro-generated); in the wrong-type arm of "
                  "expect_raises it points into a destroyed std::string and only what() is inspected",
                  "the expected verdict of expect_raises<E> for a thrown T is std::is_convertible<const T*, const E*> (public unambiguous base), i.e. "
@@ -29,10 +45,17 @@ PROP = dict(
                  "either verdict is accepted, a failure must still be the helper's own expectation_failed with the call site (counted as excluded)",
                  "the expected verdict of expect(v) / expect_msg(v, m) for a raw arithmetic v is computed on the representation (any value bit set; "
                  "for float/double any bit besides the sign), cross-checked against static_cast<bool>(v)",
+                 "clang++ with libstdc++ (the main harness's toolchain) compares type_info names of internal-linkage types as strings, so its own "
+                 "catch (const E&) matches a same-named file-local type of another translation unit; under a toolchain that does this the "
+                 "cross-file cells of raises_tu / two_tu whose thrown type would match within one file are left open (counted as excluded, a "
+                 "failure must still be the helper's own); the g++ configurations of c19_two_tu decide them",
+                 "evaluating an operand expression exactly once is taken as part of 'throws exactly when the stated relation is false and does "
+                 "nothing otherwise' (the relation is the one between the values the operands have at the call); the message expression of "
+                 "expect_msg may be evaluated lazily (0 or 1 times)",
                  "a helper called from a destructor during unwinding is wrapped in try/catch inside that destructor (legal C++: the exception does "
                  "not leave the destructor); the property does not make the verdict depend on std::uncaught_exceptions()"],
     min_evaluations_quick=600,
-    engine="rapidcheck + exhaustive enumerators",
+    engine="rapidcheck + exhaustive enumerators + a two-translation-unit probe built per toolchain",
     technique="exhaustive enumeration of a finite relation x operand matrix, of a predicate-type x bit-pattern matrix and of an exception-type x behaviour matrix generated from a compile-time type list, each crossed with five ambient runtime states (incl. call from a destructor during unwinding), plus rapidcheck-generated operand pairs; oracle = the native C++ relation, the value representation, and std::is_convertible on the exception hierarchy",
     level_text=("Exploration, complete inside the stated matrices: every cell calls the real macro / template (ASan+UBSan build of the working "
                 "tree), observes whether and what it throws, and compares with the native relation or the is-base-of fact; file, line and "
